@@ -679,3 +679,72 @@ def an_id_of_zero_is_an_id(ctx):
                   '%s tests the recorded ids by their truth value (%s): ids that are all 0 count as "none recorded" and are dropped, so read_history(monitor, iter=True) no longer gives back the ids that were recorded'
                   % (fi.qualname, unparse(bad)[:40] if bad is not None else ''), fi, enclosing_stmt(bad) if bad is not None else fi.node)
     ctx.need(n >= 3, 'expected >= 3 functions of mystic.munge that handle ids, found %d' % n)
+
+
+@rule('C20.p', min_instances=2)
+def only_a_python_extension_is_stripped_from_a_file_name(ctx):
+    """read_history / read_import turn '<name>.py' (.pyc, .pyo, .pyd) into the module-style '<name>'; the regular expression that does so is a constant of the source and is judged as such: it must leave every other name alone - `\\.py*.$` also strips '.pt', '.px', '.p1' (".p, any number of y, any character"), so a LoggingMonitor log called run.pt could not be read back ("Module: run not found")"""
+    m = ctx.model.modules[MU]
+    n = 0
+    for q, fi in sorted(m.funcs.items()):
+        for c in walk_no_nested(fi.node):
+            if not (isinstance(c, ast.Call) and isinstance(c.func, ast.Attribute) and c.func.attr == 'sub' and len(c.args) >= 3 and isinstance(c.args[0], ast.Constant)
+                    and isinstance(c.args[0].value, str) and isinstance(c.args[1], ast.Constant) and c.args[1].value == ''):
+                continue
+            pat = c.args[0].value
+            if 'py' not in pat:
+                continue
+            n += 1
+            ctx.touch(fi)
+            try:
+                rx = re.compile(pat)
+            except re.error as ex:
+                raise AnalysisError('%s: the pattern %r does not compile: %s' % (fi.qualname, pat, ex))
+            strips = [e for e in ('.py', '.pyc', '.pyo') if rx.sub('', 'name' + e) == 'name']
+            keeps = [e for e in ('.pt', '.px', '.p1', '.pkl', '.txt', '.pyx_', '.spy', '.log', '') if rx.sub('', 'name' + e) == 'name' + e]
+            ctx.check(len(strips) == 3 and len(keeps) == 9, '%s#extension[%s]' % (fi.qualname, pat), 'strips .py / .pyc / .pyo and nothing else',
+                      '%s strips the "python extension" with %r, which also removes %s: a history file with such a name is looked for under a different name and cannot be read back'
+                      % (fi.qualname, pat, [e for e in ('.pt', '.px', '.p1', '.pkl', '.txt', '.pyx_', '.spy', '.log') if rx.sub('', 'name' + e) != 'name' + e]), fi, enclosing_stmt(c))
+    ctx.need(n >= 2, 'expected the two extension-stripping substitutions of mystic.munge (read_history, read_import), found %d' % n)
+
+
+@rule('C20.q', min_instances=2)
+def raw_cost_lists_travel_with_their_scaling(ctx):
+    """a Monitor's `_y` holds the costs multiplied by its k; code outside the Monitor class that fills a monitor's `_y` with a raw list taken from another monitor (the ensemble solvers rebuild the members' monitors from (x, y, id, info) tuples returned by the map) must give that monitor the k the list was scaled with - otherwise every later k-aware operation (item / slice assignment, extend, +) converts the costs a second time: with a copying or process map and Monitor(k=2) the ensemble's monitors reported twice the true cost"""
+    n = 0
+    for mname in ('mystic.abstract_ensemble_solver',):
+        m = ctx.model.modules[mname]
+        for q, fi in sorted(m.funcs.items()):
+            raw = {}
+            for st in stmts_of(fi.node):
+                if isinstance(st, ast.Assign):
+                    for tg in st.targets:
+                        for x in ([tg] if not isinstance(tg, ast.Tuple) else tg.elts):
+                            if isinstance(x, ast.Attribute) and x.attr == '_y' and isinstance(x.value, ast.Name):
+                                raw.setdefault(x.value.id, st)
+            for name, st in sorted(raw.items()):
+                n += 1
+                ctx.touch(fi)
+                ks = [s2 for s2 in stmts_of(fi.node) if isinstance(s2, ast.Assign) and any(isinstance(t2, ast.Attribute) and t2.attr in ('k', '_k') and isinstance(t2.value, ast.Name) and t2.value.id == name for t2 in s2.targets)]
+                ctx.check(bool(ks), '%s#%s._y' % (fi.qualname, name), 'the monitor filled with raw costs is given their scaling',
+                          '%s fills %s._y with a raw (k-scaled) cost list but leaves %s.k at its default: the k-aware operations that follow (m[a:] = %s[a:]) scale the costs again - an ensemble run through a copying / '
+                          'process map with Monitor(k=2) reports twice the true cost' % (fi.qualname, name, name, name), fi, st)
+    ctx.need(n >= 2, 'expected the two scratch monitors of __update_allSolvers, found %d' % n)
+
+
+@rule('C20.r', min_instances=3)
+def reporting_monitors_take_a_zero_d_cost_as_a_scalar(ctx):
+    """Verbose / Logging monitors pick "the best" entry of a vector-valued cost with self._y[-1][best] when all=False; what they test to decide that the cost is a vector must agree with what Monitor.__call__ stored: a 0-d array (Powell's first cost) is stored as a scalar (repair f13ad96), so the test has to exclude it (ndim) - otherwise the first record of a Powell run raises IndexError under all=False"""
+    n = 0
+    m = ctx.model.modules[MO]
+    for q, fi in sorted(m.funcs.items()):
+        if fi.name != '__call__' or not fi.cls:
+            continue
+        for st in walk_no_nested(fi.node):
+            if isinstance(st, ast.If) and 'list_or_tuple_or_ndarray(y)' in unparse(st.test) and any('[best]' in unparse(x) for x in ast.walk(st)):
+                n += 1
+                ctx.touch(fi)
+                ctx.check('ndim' in unparse(st.test), '%s#cost-is-vector@%d' % (fi.qualname, n), 'a 0-d cost is a scalar here too (%s)' % ' '.join(unparse(st.test).split())[:60],
+                          '%s decides with `%s` that the cost is a vector and then indexes the stored record with [best]: a 0-d array passes the test but was stored as a scalar, so Powell\'s first record raises IndexError when all=False'
+                          % (fi.qualname, ' '.join(unparse(st.test).split())), fi, st)
+    ctx.need(n >= 3, 'expected the three reporting monitors (verbose, logging, verbose-logging), found %d' % n)
